@@ -31,6 +31,8 @@ CLAIMS = {
          "wider lanes rely on the GF(2)-affinity argument for data; CSR shims process-local", "exhaustive fault enumeration through the elaborated netlist + explicit-state BFS over handshake timing"),
  "C16": (EX, "exhaustive enumeration of every library module class x speedgrade x legal rate x controller-clock grid (and SPD images) through the real SDRAMModule constructor against an exact-rational oracle of the safety inequalities",
          "datasheet = the library class's numbers; clock grid 10-400 MHz (5 MHz quick, 1 MHz + boundary frequencies thorough)", "exhaustive input/configuration enumeration against an independent exact-rational oracle"),
+ "C18": (MC, "DFI rate converter: complete reachable graphs over two phase-aligned clock domains (ratios 2/4/8, 1-2 PHY phases, all write/read delays in thorough) for all sequences of slow-cycle command patterns and fast-side read-data patterns, every output of every step compared with the documented slot mapping and latencies; DFI injector: exhaustive enumeration of every field value against several backgrounds plus the full product of 1-bit fields through the real netlist (transparency in hardware mode, no controller influence in software mode)",
+         "injector widths shrunk, per-bit independence argued from structure; CSR field signals treated as free inputs; slow-cycle alphabet = NOP / one tagged command per slot / all slots", "explicit-state BFS of the elaborated two-clock netlist + exhaustive input enumeration of the injector netlist"),
  "C17": (EX, "exhaustive enumeration of memtype x CL/CWL x nphases x module-derived timings x clock grid x electrical/RDIMM/clam-shell options through the real init generators, judged by independent JEDEC mode-register decoders (BL/CL/CWL equality, write-recovery bounds, field overlap/overflow, C vs Python rendering)",
          "decoders transcribed from the JEDEC standards; termination/drive options are outside the property's field list (noted, not judged); operating points below the JEDEC minimum clock are not judged for the WR upper bound", "exhaustive input/configuration enumeration against independent decoders"),
 }
